@@ -27,8 +27,13 @@ SPECS = {
     "add_del_req": dict(pre=[("regp", CAM), ("regc", CAM), ("add", CAM, "camA", 5)], adv=0,
                         actors=[[("add", CAM, "camC", 5)], [("del", CAM, 0)], [("req", CAM, (CAM,))]]),
     # add || garbage collection with one object expiring || query
+    # (the reactive LDM runs garbage collection inside add_provider_data after the insert: the add is two atomic steps,
+    #  insert and collection, and a query between them legitimately sees both the new and the not-yet-collected object -
+    #  "present at some instant during the call"; the sequential reference therefore orders the two steps separately)
     "add_trash_req": dict(pre=[("regp", CAM), ("regc", CAM), ("add", CAM, "camA", 1)], adv=2,
-                          actors=[[("add", CAM, "camC", 5)], [("maint",)], [("req", CAM, (CAM,))]]),
+                          actors=[[("add", CAM, "camC", 5)], [("maint",)], [("req", CAM, (CAM,))]],
+                          ref_actors=[[("add_nomaint", CAM, "camC", 5), ("maint",)], [("maint",)], [("req", CAM, (CAM,))]],
+                          ref_parent={(0, 1): (0, 0)}),
     # subscription attendance (reactive on add, and explicit) racing with unsubscribe
     "sub_add_unsub": dict(pre=[("regp", CAM), ("regc", CAM), ("sub", CAM, (CAM,), "s0")], adv=0,
                           actors=[[("add", CAM, "camA", 5)], [("unsub", CAM, "s0")], [("attend",)]]),
@@ -79,6 +84,10 @@ class LdmHarness:
             return w.dereg_consumer(op[1])
         if k == "add":
             return w.add(op[1], L.MSGS[op[2]](), op[3])
+        if k == "add_nomaint":      # reference only: the insert step of a reactive add (collection is ordered separately)
+            m = w.ldm.ldm_maintenance
+            m.last_trash_collection_time = self.s.now
+            return w.add(op[1], L.MSGS[op[2]](), op[3])
         if k == "upd":
             return w.update(op[1], op[2], L.MSGS[op[3]]())
         if k == "del":
@@ -113,8 +122,9 @@ class LdmHarness:
     def actors(self):
         if self.perm is not None:
             def seq():
+                acts = self.spec.get("ref_actors", self.spec["actors"])
                 for key in self.perm:
-                    self._run_op(key, self.spec["actors"][key[0]][key[1]])
+                    self._run_op(key, acts[key[0]][key[1]])
             return [("seq", seq)]
         out = []
         for ai, a in enumerate(self.spec["actors"]):
@@ -134,7 +144,8 @@ class LdmHarness:
 
     def outcome(self, s):
         if not hasattr(self, "_out"):
-            self._out = (tuple(sorted((k, repr(v)) for k, v in self.results.items())), repr(self.final()))
+            real = {(ai, oi) for ai, a in enumerate(self.spec["actors"]) for oi, _ in enumerate(a)}
+            self._out = (tuple(sorted((k, repr(v)) for k, v in self.results.items() if k in real)), repr(self.final()))
         return self._out
 
     def check(self, s):
@@ -148,10 +159,12 @@ class LdmHarness:
         ref = sequential_outcomes(self.name)
         keys = [(ai, oi) for ai, oi, _ in self.ops]
         ok = False
+        parent = self.spec.get("ref_parent", {})
         for perm, o in ref.items():
+            stamp = {k: self.stamps.get(parent.get(k, k)) for k in perm}
             pos = {k: i for i, k in enumerate(perm)}
-            consistent = all(not (self.stamps[a][1] < self.stamps[b][0]) or pos[a] < pos[b] for a in keys for b in keys if a != b
-                             and a in self.stamps and b in self.stamps)
+            consistent = all(not (stamp[a][1] < stamp[b][0]) or pos[a] < pos[b] for a in perm for b in perm
+                             if a != b and stamp[a] and stamp[b] and parent.get(a, a) != parent.get(b, b))
             if consistent and o == out:
                 ok = True
                 break
@@ -168,11 +181,12 @@ def sequential_outcomes(name):
     if name in _SEQ:
         return _SEQ[name]
     spec = SPECS[name]
-    keys = [(ai, oi) for ai, a in enumerate(spec["actors"]) for oi, _ in enumerate(a)]
+    acts = spec.get("ref_actors", spec["actors"])
+    keys = [(ai, oi) for ai, a in enumerate(acts) for oi, _ in enumerate(a)]
     res = {}
     saved = (E.ENV.mode, E.ENV.sched)
     for perm in itertools.permutations(keys):
-        if any(perm.index((ai, oi)) > perm.index((ai, oi + 1)) for ai, a in enumerate(spec["actors"]) for oi in range(len(a) - 1)):
+        if any(perm.index((ai, oi)) > perm.index((ai, oi + 1)) for ai, a in enumerate(acts) for oi in range(len(a) - 1)):
             continue
         s, h, bad = SC.execute(lambda: LdmHarness(name, perm), [], dict(scope=()))
         res[perm] = h.outcome(s)
